@@ -494,8 +494,21 @@ func (s *startupSiTr) seq(stmts []ast.Stmt, ind string, tail func(ind string) st
 			}
 		}
 	case *ast.IfStmt:
-		if v.Init == nil && v.Else == nil && len(v.Body.List) > 0 {
+		if v.Init != nil {
+			// `if x := e; cond { … }` is `x := e` followed by `if cond { … }` (a local declared there is not used after the statement)
+			cp := *v
+			cp.Init = nil
+			return s.seq(append([]ast.Stmt{v.Init, &cp}, rest...), ind, tail)
+		}
+		if v.Else == nil && len(v.Body.List) > 0 {
 			if _, isRet := v.Body.List[len(v.Body.List)-1].(*ast.ReturnStmt); isRet {
+				// `if !waiter.Wait(c) { …; return }`: the call in the condition consumes the next oracle answer
+				if un, isNot := v.Cond.(*ast.UnaryExpr); isNot && un.Op == token.NOT {
+					if role, isWait := s.waitCall(un.X); isWait {
+						return ind + "match waits with\n" + ind + "| [] => " + fmt.Sprintf(startupSiRes, "false") + "\n" + ind + "| w :: waits =>\n" +
+							ind + "if (!(w " + role + ")) then\n" + s.seq(v.Body.List, ind+"  ", tail) + ind + "else\n" + s.seq(rest, ind, tail)
+					}
+				}
 				return ind + "if " + s.boolExpr(v.Cond) + " then\n" + s.seq(v.Body.List, ind+"  ", tail) + ind + "else\n" + s.seq(rest, ind, tail)
 			}
 		}
@@ -1050,6 +1063,47 @@ func (x *startupSup) engineRun(b *strings.Builder) {
 	} else {
 		resLean = leaf(resCase)
 	}
+	// the deferred cancel(): `ctx, cancel := context.WithCancel(ctx)` first, a deferred call of that cancel, and every pool is run with
+	// that derived context
+	var engCtx, engCancel types.Object
+	defers, poolsGetIt := false, false
+	for _, st := range fd.Body.List {
+		switch v := st.(type) {
+		case *ast.AssignStmt:
+			if len(v.Lhs) == 2 && len(v.Rhs) == 1 && engCtx == nil {
+				if c, isCall := v.Rhs[0].(*ast.CallExpr); isCall && x.src(c.Fun) == "context.WithCancel" && len(c.Args) == 1 {
+					ps := x.paramObjs(fd.Type)
+					if len(ps) == 1 && x.obj(c.Args[0]) == ps[0] {
+						engCtx, engCancel = x.obj(v.Lhs[0]), x.obj(v.Lhs[1])
+					}
+				}
+			}
+		case *ast.DeferStmt:
+			ast.Inspect(v, func(n ast.Node) bool {
+				if c, ok := n.(*ast.CallExpr); ok && len(c.Args) == 0 && engCancel != nil && x.obj(c.Fun) == engCancel {
+					defers = true
+				}
+				return true
+			})
+		}
+	}
+	nRun, nRunWithCtx := 0, 0
+	ast.Inspect(fd.Body, func(n ast.Node) bool {
+		if c, ok := n.(*ast.CallExpr); ok && len(c.Args) == 1 {
+			if sel, isSel := c.Fun.(*ast.SelectorExpr); isSel && sel.Sel.Name == "Run" {
+				if ty := x.pkg.TypesInfo.TypeOf(sel.X); ty != nil && strings.HasSuffix(ty.String(), "engine.instancePool") {
+					nRun++
+					if engCtx != nil && x.obj(c.Args[0]) == engCtx {
+						nRunWithCtx++
+					}
+				}
+			}
+		}
+		return true
+	})
+	poolsGetIt = nRun > 0 && nRun == nRunWithCtx
+	b.WriteString("/-- regenerated from `(*Engine).Run`: it derives its context with `context.WithCancel` from the caller's, a deferred function calls\nthat `cancel()`, and every pool's `Run` is given the derived context: returning cancels every pool -/\n")
+	b.WriteString(fmt.Sprintf("def engineReturnCancelsPools : Bool := %v\n\n", defers && poolsGetIt))
 	b.WriteString("/-- regenerated from `core/engine/engine.go` `(*Engine).Run`: the loop that awaits the pools, as a function of the number of\npools and of what its successive iterations receive (a pool result with or without error, or the engine context done);\nreturning — with any result — cancels the context of EVERY pool (the deferred `cancel()`) -/\n")
 	b.WriteString("def engineRun (nPools : Int) (i : Int) : List EngEv → EngRes\n")
 	b.WriteString("  | [] => if " + cond + " then { awaited := i, ret := none } else " + ret(afterRet) + "\n")
@@ -1674,6 +1728,255 @@ func (x *startupSup) instanceRun(b *strings.Builder) {
 	b.WriteString(fmt.Sprintf("def recoversShootPanic : Bool := %v\n\n", recovers))
 }
 
+// ---------------------------------------------------------------- round 3: how a pool fails and how its Run returns
+
+// startupOtherResults: the cases `err := <-ah.providerErr` / `err := <-ah.aggregatorErr` of awaitRun as lists of pool actions
+func (x *startupSup) startupOtherResults(b *strings.Builder) {
+	fd := startupFindMethod(x.pkg, "runAwaitHandle", "awaitRun")
+	if fd == nil {
+		return
+	}
+	recv := fd.Recv.List[0].Names[0].Name
+	for _, it := range [][2]string{{"providerErr", "onProviderResult"}, {"aggregatorErr", "onAggregatorResult"}} {
+		cc, errName := x.startupCaseOf(fd, recv, it[0])
+		if cc == nil {
+			x.fail(fd, "case err := <-%s.%s not found", recv, it[0])
+			continue
+		}
+		p := &startupPaTr{x: x}
+		p.atom = func(e ast.Expr) (string, bool) {
+			if c, ok := e.(*ast.CallExpr); ok && x.src(c.Fun) == "errutil.IsCtxError" && len(c.Args) == 2 && x.src(c.Args[1]) == errName {
+				if sel, isSel := c.Args[0].(*ast.SelectorExpr); isSel && x.src(sel.X) == recv {
+					if r, has := x.fieldRole[sel.Sel.Name]; has {
+						return "(isCtxErr " + r + ")", true
+					}
+				}
+			}
+			return "", false
+		}
+		p.calls = func(c *ast.CallExpr) (string, bool) {
+			sel, ok := c.Fun.(*ast.SelectorExpr)
+			if !ok || x.src(sel.X) != recv {
+				return "", false
+			}
+			if sel.Sel.Name == "onErrAwaited" {
+				return "[PoolAct.reportErr]", true
+			}
+			if r, has := x.fieldRole[sel.Sel.Name]; has && strings.HasSuffix(sel.Sel.Name, "Cancel") && len(c.Args) == 0 {
+				return "[PoolAct.cancel " + r + "]", true
+			}
+			return "", false
+		}
+		p.doneRole = func(ast.Expr) (string, bool) { return "", false }
+		var parts []string
+		for _, st := range cc.Body {
+			switch v := st.(type) {
+			case *ast.IncDecStmt:
+				if x.src(v.X) != recv+".toWait" {
+					x.fail(st, "statement %s", x.src(st))
+				}
+			case *ast.AssignStmt:
+				// `ah.providerErr = nil`: the channel is not read again
+				if len(v.Lhs) != 1 || x.src(v.Lhs[0]) != recv+"."+it[0] || x.src(v.Rhs[0]) != "nil" {
+					x.fail(st, "statement %s", x.src(st))
+				}
+			case *ast.ExprStmt:
+				if x.isLogCall(v.X) {
+					continue
+				}
+				parts = append(parts, p.acts([]ast.Stmt{st}))
+			case *ast.IfStmt:
+				parts = append(parts, p.acts([]ast.Stmt{st}))
+			default:
+				x.fail(st, "statement %s", x.src(st))
+			}
+		}
+		acts := "[]"
+		if len(parts) > 0 {
+			acts = "(" + strings.Join(parts, " ++ ") + ")"
+		}
+		b.WriteString("/-- regenerated from `(*runAwaitHandle).awaitRun`, case `" + errName + " := <-" + recv + "." + it[0] + "`: what the pool does with that result\n(isCtxErr c: `errutil.IsCtxError(<context c>, " + errName + ")`) -/\n")
+		b.WriteString("def " + it[1] + " (isCtxErr : Ctx → Bool) : List PoolAct :=\n  " + acts + "\n\n")
+	}
+}
+
+// startupPoolRunRet classifies the statements of a case of the final select of (*instancePool).Run
+func (x *startupSup) startupPoolRunRet(stmts []ast.Stmt, errName, okName string) string {
+	for i, st := range stmts {
+		switch v := st.(type) {
+		case *ast.ExprStmt:
+			if x.isLogCall(v.X) {
+				continue
+			}
+		case *ast.ReturnStmt:
+			if len(v.Results) == 1 {
+				r := x.src(v.Results[0])
+				switch {
+				case r == "nil":
+					return "PoolRunRet.nil"
+				case errName != "" && r == errName:
+					return "PoolRunRet.reported"
+				case strings.HasSuffix(r, ".Err()"):
+					return "PoolRunRet.ctxErr"
+				}
+			}
+		case *ast.IfStmt:
+			if v.Init == nil && okName != "" && len(v.Body.List) > 0 {
+				c := x.src(v.Cond)
+				th := x.startupPoolRunRet(v.Body.List, errName, okName)
+				var el string
+				if v.Else != nil {
+					if eb, isB := v.Else.(*ast.BlockStmt); isB {
+						el = x.startupPoolRunRet(eb.List, errName, okName)
+					}
+				} else {
+					el = x.startupPoolRunRet(stmts[i+1:], errName, okName)
+				}
+				if c == okName {
+					return "(if ok then " + th + " else " + el + ")"
+				}
+				if c == "!"+okName {
+					return "(if ok then " + el + " else " + th + ")"
+				}
+			}
+		}
+		return x.fail(st, "statement of the final select of pool Run %s", x.src(st))
+	}
+	return x.fail(stmts[0], "case of the final select of pool Run does not return")
+}
+
+func (x *startupSup) startupPoolRun(b *strings.Builder) {
+	fd := startupFindMethod(x.pkg, "instancePool", "Run")
+	if fd == nil {
+		x.t.errs = append(x.t.errs, "method (*instancePool).Run not found")
+		return
+	}
+	var ctxObj, cancelObj, awaitErrObj types.Object
+	defersCancel, handsOn := false, false
+	var sel *ast.SelectStmt
+	for _, st := range fd.Body.List {
+		switch v := st.(type) {
+		case *ast.AssignStmt:
+			if len(v.Lhs) == 2 && len(v.Rhs) == 1 {
+				if c, isCall := v.Rhs[0].(*ast.CallExpr); isCall && x.src(c.Fun) == "context.WithCancel" && len(c.Args) == 1 && ctxObj == nil {
+					ps := x.paramObjs(fd.Type)
+					if len(ps) == 1 && x.obj(c.Args[0]) == ps[0] {
+						ctxObj, cancelObj = x.obj(v.Lhs[0]), x.obj(v.Lhs[1])
+					}
+				}
+				if c, isCall := v.Rhs[0].(*ast.CallExpr); isCall && strings.HasSuffix(x.src(c.Fun), ".runAsync") && len(c.Args) == 1 {
+					handsOn = ctxObj != nil && x.obj(c.Args[0]) == ctxObj
+				}
+			}
+			if len(v.Lhs) == 1 && len(v.Rhs) == 1 {
+				if c, isCall := v.Rhs[0].(*ast.CallExpr); isCall && strings.HasSuffix(x.src(c.Fun), ".awaitRunAsync") {
+					awaitErrObj = x.obj(v.Lhs[0])
+				}
+			}
+		case *ast.DeferStmt:
+			ast.Inspect(v, func(n ast.Node) bool {
+				if c, ok := n.(*ast.CallExpr); ok && len(c.Args) == 0 && cancelObj != nil && x.obj(c.Fun) == cancelObj {
+					defersCancel = true
+				}
+				return true
+			})
+		case *ast.SelectStmt:
+			sel = v
+		}
+	}
+	if ctxObj == nil || awaitErrObj == nil || sel == nil {
+		x.fail(fd, "pool Run shape (ctx, cancel := context.WithCancel(ctx); awaitErr := p.awaitRunAsync(rh); final select)")
+		return
+	}
+	// runAsync: the run context is derived from its parameter
+	runFromParam := false
+	if ra := startupFindMethod(x.pkg, "instancePool", "runAsync"); ra != nil {
+		ps := x.paramObjs(ra.Type)
+		ast.Inspect(ra.Body, func(n ast.Node) bool {
+			if as, ok := n.(*ast.AssignStmt); ok && len(as.Lhs) == 2 && len(as.Rhs) == 1 {
+				if c, isCall := as.Rhs[0].(*ast.CallExpr); isCall && x.src(c.Fun) == "context.WithCancel" && len(c.Args) == 1 {
+					if x.cancelRole[x.obj(as.Lhs[1])] == "Ctx.run" && len(ps) == 1 && x.obj(c.Args[0]) == ps[0] {
+						runFromParam = true
+					}
+				}
+			}
+			return true
+		})
+	}
+	doneCase, errCase := "", ""
+	for _, cl := range sel.Body.List {
+		cc := cl.(*ast.CommClause)
+		switch c := cc.Comm.(type) {
+		case *ast.ExprStmt:
+			if un, ok := c.X.(*ast.UnaryExpr); ok && un.Op == token.ARROW {
+				if call, isCall := un.X.(*ast.CallExpr); isCall {
+					if s2, isSel := call.Fun.(*ast.SelectorExpr); isSel && s2.Sel.Name == "Done" && x.obj(s2.X) == ctxObj {
+						doneCase = x.startupPoolRunRet(cc.Body, "", "")
+						continue
+					}
+				}
+			}
+		case *ast.AssignStmt:
+			if len(c.Lhs) == 2 && len(c.Rhs) == 1 {
+				if un, ok := c.Rhs[0].(*ast.UnaryExpr); ok && un.Op == token.ARROW && x.obj(un.X) == awaitErrObj {
+					errCase = x.startupPoolRunRet(cc.Body, x.src(c.Lhs[0]), x.src(c.Lhs[1]))
+					continue
+				}
+			}
+		}
+		x.fail(cl, "case of the final select of pool Run")
+	}
+	if doneCase == "" || errCase == "" {
+		x.fail(sel, "final select of pool Run: cases `<-ctx.Done()` and `err, ok := <-awaitErr`")
+		return
+	}
+	b.WriteString("/-- regenerated from `core/engine/engine.go` `(*instancePool).Run`: what it returns, by the case its final `select` takes (its own\ncontext done; a value / the close of the channel returned by `awaitRunAsync`) -/\n")
+	b.WriteString("def poolRunSelect : PoolRunEv → PoolRunRet\n  | PoolRunEv.ctxDone => " + doneCase + "\n  | PoolRunEv.awaitErr ok => " + errCase + "\n\n")
+	b.WriteString("/-- regenerated from `(*instancePool).Run`: it derives its context with `context.WithCancel` from the one it is given and a\ndeferred function calls that `cancel()`: returning — with any result — cancels the pool context -/\n")
+	b.WriteString(fmt.Sprintf("def poolRunCancelsOnReturn : Bool := %v\n\n", defersCancel))
+	b.WriteString("/-- regenerated from `Run` / `runAsync`: `runAsync` is given that derived context and derives the RUN context from its parameter\n(so cancelling the pool context cancels the run context, which cancels the start context: `startCtxParent`) -/\n")
+	b.WriteString(fmt.Sprintf("def runCtxIsChildOfPoolCtx : Bool := %v\n\n", handsOn && runFromParam))
+
+	// onErrAwaited: the two ways out of its select
+	oe := startupFindMethod(x.pkg, "runAwaitHandle", "onErrAwaited")
+	if oe == nil {
+		x.t.errs = append(x.t.errs, "method (*runAwaitHandle).onErrAwaited not found")
+		return
+	}
+	recv := oe.Recv.List[0].Names[0].Name
+	var cases []string
+	var osel *ast.SelectStmt
+	for _, st := range oe.Body.List {
+		if s2, ok := st.(*ast.SelectStmt); ok {
+			osel = s2
+		} else {
+			x.fail(st, "onErrAwaited: statement outside its select")
+		}
+	}
+	if osel == nil {
+		x.fail(oe, "onErrAwaited: select not found")
+		return
+	}
+	for _, cl := range osel.Body.List {
+		cc := cl.(*ast.CommClause)
+		switch c := cc.Comm.(type) {
+		case *ast.SendStmt:
+			if x.src(c.Chan) == recv+".awaitErr" && len(oe.Type.Params.List) == 1 && x.src(c.Value) == oe.Type.Params.List[0].Names[0].Name {
+				cases = append(cases, "ErrCase.send")
+				continue
+			}
+		case *ast.ExprStmt:
+			if x.src(c.X) == "<-"+recv+".poolCtx.Done()" {
+				cases = append(cases, "ErrCase.poolCtxDone")
+				continue
+			}
+		}
+		x.fail(cl, "onErrAwaited: select case")
+	}
+	b.WriteString("/-- regenerated from `(*runAwaitHandle).onErrAwaited`: the cases of its `select` — the error is SENT to the pool's `Run` (which\nthen returns it), or given up once the pool context is done (`Run` has returned already) -/\n")
+	b.WriteString("def onErrAwaitedCases : List ErrCase := [" + strings.Join(cases, ", ") + "]\n\n")
+}
+
 func startupExtra(t *tr) string {
 	var b strings.Builder
 	b.WriteString("open Pandora.Go.C12\n\n")
@@ -1684,6 +1987,8 @@ func startupExtra(t *tr) string {
 		x.awaitRun(&b)
 		x.awaitCounters(&b)
 		x.finishCallback(&b, builderArgs)
+		x.startupOtherResults(&b)
+		x.startupPoolRun(&b)
 	}
 	x.engineRun(&b)
 	x.passThrough(&b)
